@@ -92,6 +92,17 @@ def shapes(pat):
     # star over two relations: table level + correspondence only (attribution of shared names is hash-order dependent, D16)
     q = G.select([G.item(["star", []])], [G.from_expr(T(t1, "x"), [G.join(T(t2, "y"), G.eq(G.col(first(t1), "x"), G.col(first(t2), "y")))])])
     yield dict(name="star2/join", ast=ins(q), scope=[t1, t2], target=tg, target_meta=True, oracle=("none",))
+    # the same join under the star-join oracle: each KNOWN table contributes its columns by name, each UNKNOWN table keeps its wildcard
+    # pair ("tables the provider does not know get the same answer as without metadata", D48)
+    yield dict(name="star2/join-mixed", ast=ins(q), scope=[t1, t2], target=tg, target_meta=True, oracle=("star-join", [t1, t2]))
+    q3 = G.select([G.item(["star", []])], [G.from_expr(T(t1, "x"), [G.join(T(t2, "y"), G.eq(G.col(first(t1), "x"), G.col(first(t2), "y"))),
+                                                                  G.join(T(t3, "z"), G.eq(G.col(first(t1), "x"), G.col(first(t3), "z")))])])
+    yield dict(name="star3/join-mixed", ast=ins(q3), scope=[t1, t2, t3], target=tg, target_meta=True, oracle=("star-join", [t1, t2, t3]))
+    # `*` over a known table into a target the provider knows under the SAME column names, in the same order (the usual staging copy):
+    # expansion by name and naming by position coincide (D47)
+    q = G.select([G.item(["star", []])], [G.from_expr(T(t1))])
+    yield dict(name="star-same-names/known-target", ast=ins(q), scope=[t1], target=tg, target_cols=list(PATTERNS[pat][t1]),
+               oracle=("star-same", t1))
     # plain SELECT (no target)
     yield dict(name="select-only/star", ast=["query", G.select([G.item(["star", []])], [G.from_expr(T(t1))]), False], scope=[t1], target=None,
                target_meta=False, oracle=("none",))
@@ -349,6 +360,21 @@ def check_oracles(sh, pat, known, res, base):
             meta = [norm(c) for c in sh["target_cols"]] if tgt_known else []
             cls = "D8" if tgt_known and (set(meta) - set(lst)) else None
             bad.append(("O6", f"explicit column list {lst} over UNION does not name the positions: {P} (expected {want})", cls))
+    elif o[0] == "star-join":
+        ts = o[1]
+        kn = [t for t in ts if t in known]
+        overlap = any(set(cols[a]) & set(cols[b]) for a in kn for b in kn if a < b)
+        if not tgt_known and not overlap:
+            want = sorted({(f"{t}.{c}", f"{tg}.{c}") for t in kn for c in cols[t]} | {(f"{t}.*", f"{tg}.*") for t in ts if t not in known})
+            if P != want:
+                bad.append(("O3", f"`*` over the join of {ts} (known: {kn}): {P} (expected {want}: every known table's columns by name, "
+                                  "every unknown table's wildcard pair as without metadata)", None))
+    elif o[0] == "star-same":
+        t = o[1]
+        if tgt_known and t in known:
+            want = sorted((f"{t}.{c}", f"{tg}.{c}") for c in cols[t])
+            if P != want:
+                bad.append(("O3", f"`*` over the known table {t} into {tg}, known under the same column names: {P} (expected {want})", None))
     elif o[0] == "star-positions":
         t = o[1]
         if tgt_known and t in known:
